@@ -403,3 +403,60 @@ def rf134(run):
                        'the operand was exempt on the reference tree (validated at creation); validating it here rejects well-formed code'),
                       line=loops[0]['l'])
     return n
+
+
+# ---------------------------------------------------------------------------------------------
+# RF145: the mode comparison of MIR_finish_func
+# ---------------------------------------------------------------------------------------------
+
+def rf145(run):
+    from lib import printexec as PE
+    rule = 'RF145'
+    run.rule(rule, 'MIR_finish_func: the statements between the computation of an operand\'s mode and the end of the operand loop, executed '
+                   'abstractly for every pair (mode of the operand, expected mode) over {int, uint, float, double, long double}: an error is '
+                   'raised exactly when the modes differ (uint counts as int).  No mode is silently taken for another one — a long double '
+                   'register accepted where a double is expected is read as a double by the engines')
+    tu = run.tu('mir')
+    f = tu.func('MIR_finish_func')
+    run.functions_analysed.add(('mir', f.name))
+    loops = [l for l in f.walk() if l['k'] == 'ForStmt' and l['c'][1] is not None and 'actual_nops' in F.src(l['c'][1])]
+    if not loops:
+        raise F.AnalysisBroken('MIR_finish_func: the loop over the operands was not found')
+    stmts = F.kids(loops[0]['c'][3])
+    idx = [i for i, s_ in enumerate(stmts) if s_['k'] == 'SwitchStmt' and '.mode' in F.src(s_['c'][0])]
+    if not idx:
+        raise F.AnalysisBroken('MIR_finish_func: the switch on the operand mode was not found')
+    tail = stmts[idx[-1] + 1:]
+    modes = dict(tu.enum('MIR_op_mode_t'))
+    codes = dict(tu.enum('MIR_insn_code_t'))
+    ms = ['MIR_OP_INT', 'MIR_OP_UINT', 'MIR_OP_FLOAT', 'MIR_OP_DOUBLE', 'MIR_OP_LDOUBLE']
+    n = 0
+    first = None
+    for m in ms:
+        for e in ms:
+            if e == 'MIR_OP_UINT':
+                continue
+            ex = PE.PrintExec(tu, {}, {'mode_str': lambda a, e_, x: 'X'}, {})
+            env = {'mode': modes[m], 'expected_mode': modes[e], 'code': codes['MIR_DADD'], 'i': 1, 'out_p': 0, 'can_be_out_p': 1,
+                   'insn->ops[i].mode': modes['MIR_OP_REG'], 'insn->ops[1].mode': modes['MIR_OP_REG']}
+            try:
+                for s_ in tail:
+                    r = ex.run(s_, env)
+                    if r in ('continue', 'break', 'return'):
+                        break
+            except F.AnalysisBroken as e_:
+                raise F.AnalysisBroken('MIR_finish_func: mode comparison not executable (%s / %s): %s' % (m, e, e_))
+            rejected = bool(ex.errors)
+            want = ('MIR_OP_INT' if m == 'MIR_OP_UINT' else m) != e
+            ok = rejected == want
+            n += 1
+            run.ob(rule, (m, e), ok, {'operand mode': m, 'expected': e, 'rejected': rejected})
+            if not ok and first is None:
+                first = (m, e, rejected)
+    if first:
+        m, e, rejected = first
+        run.violation(rule, f, '%s where %s is expected' % (m[7:].lower(), e[7:].lower()), 'an operand of mode %s where %s is expected is %s by '
+                      'MIR_finish_func: %s' % (m, e, 'rejected' if rejected else 'accepted',
+                                               'the engines read the operand with the expected type (an 80-bit long double as a double), so ill-formed '
+                                               'code runs and computes garbage' if not rejected else 'well-formed code is refused'), line=loops[0]['l'])
+    return n
